@@ -24,11 +24,13 @@ def _fm(maxw):
 def configs(tier, seed):
     rng = random.Random(seed)
     fm = _fm(24)
+    if tier == 'thorough':
+        fm = [(s, n, f) for s in (True, False) for n in range(1, 25) for f in sorted(set([-1, 0, 1, n // 2, n - 1, n, n + 1]))]
     pairs = [(x, y) for x in fm for y in fm]
     out = []
-    for x, y in C.pick(pairs, 300 if tier == 'quick' else 3000, rng):
+    for x, y in C.pick(pairs, 300 if tier == 'quick' else 40000, rng):
         out.append(dict(part='cmp', x=list(x), y=list(y), shape=[]))
-    for x, y in C.pick(pairs, 40 if tier == 'quick' else 300, rng):
+    for x, y in C.pick(pairs, 40 if tier == 'quick' else 3000, rng):
         out.append(dict(part='cmp', x=list(x), y=list(y), shape=[2]))
     for x in C.pick(fm, 40 if tier == 'quick' else len(fm), rng):
         out.append(dict(part='cmp_num', x=list(x), kind='float', g=rng.choice((0, 1, 3, 30))))
@@ -39,7 +41,7 @@ def configs(tier, seed):
         out.append(dict(part='conv', x=list(x), shape=[]))
     for x in C.pick(conv, 10 if tier == 'quick' else 60, rng):
         out.append(dict(part='conv', x=list(x), shape=[2]))
-    for x in C.pick([q for q in conv if q[2] >= 1], 24 if tier == 'quick' else 150, rng):
+    for x in C.pick([q for q in conv if q[2] >= 1], 24 if tier == 'quick' else 600, rng):
         out.append(dict(part='conv', x=list(x), shape=rng.choice(([], [], [2])), history=rng.choice(('raw', 'equal'))))
     return out
 
